@@ -24,6 +24,14 @@ func (c *fnCtx) exprWant(x ast.Expr, e *env, want *Kind) (Val, error) {
 			return c.strConst(lit, *want)
 		}
 	}
+	if want != nil && want.Base == "slice" {
+		// nil is the empty slice (the difference between nil and empty is not modelled)
+		if id, ok := x.(*ast.Ident); ok && id.Name == "nil" {
+			if _, _, shadow := e.lookup("nil"); !shadow {
+				return Val{S: "nil", K: *want}, nil
+			}
+		}
+	}
 	v, err := c.expr(x, e)
 	if err != nil {
 		return Val{}, err
@@ -66,7 +74,7 @@ func (c *fnCtx) coerce(v Val, k Kind, at ast.Node) (Val, error) {
 	if v.K.Base != k.Base {
 		return Val{}, c.err(at, "value of kind %s where kind %s is needed", v.K, k)
 	}
-	if k.Base == "estr" && !sameKind(v.K, k) {
+	if !sameKind(v.K, k) {
 		return Val{}, c.err(at, "value of type %s where %s is needed", v.K, k)
 	}
 	return v, nil
@@ -99,7 +107,7 @@ func (c *fnCtx) callee(k Kind, name string, at ast.Node) (*fnSig, error) {
 	if !ok {
 		return nil, c.err(at, "method %s.%s not found", k.Named.Name, name)
 	}
-	return c.tr.translateFunc(p, d, "", nil, true)
+	return c.tr.translateFunc(p, d, "", c.spec, true)
 }
 
 var mathConsts = map[string]string{"MaxUint64": "18446744073709551615", "MaxInt64": "9223372036854775807",
@@ -137,14 +145,19 @@ func (c *fnCtx) expr(x ast.Expr, e *env) (Val, error) {
 				return Val{}, c.err(x, "struct value %s used as a whole", x.Name)
 			case "bigopt":
 				return Val{}, c.err(x, "nullable *big.Int used outside a big.Int method call")
-			case "big":
+			case "big", "slice":
 				return Val{S: v.coq, K: v.kind, Alias: x.Name}, nil
+			case "drop", "ignore", "oracle":
+				return Val{}, c.err(x, "%s is not a value in this translation (table kind %s)", x.Name, v.kind.Base)
 			}
 			return Val{S: v.coq, K: v.kind}, nil
 		}
 		return c.constRef(c.pkg, x.Name, x)
 
 	case *ast.SelectorExpr:
+		if v, ok, err := c.fieldOf(x, e); ok || err != nil {
+			return v, err
+		}
 		if id, ok := x.X.(*ast.Ident); ok {
 			if v, _, ok := e.lookup(id.Name); ok {
 				if v.kind.Base != "struct" {
@@ -189,9 +202,15 @@ func (c *fnCtx) expr(x ast.Expr, e *env) (Val, error) {
 		return v, nil
 
 	case *ast.IndexExpr:
+		if hv, ok := c.hoisted[x]; ok {
+			return hv, nil
+		}
 		v, err := c.expr(x.X, e)
 		if err != nil {
 			return Val{}, err
+		}
+		if v.K.Base == "slice" {
+			return Val{}, c.err(x, "slice element read in a position that is not evaluated exactly once by its statement")
 		}
 		if v.K.Base != "range" {
 			return Val{}, c.err(x, "index expression on kind %s", v.K.Base)
@@ -209,9 +228,12 @@ func (c *fnCtx) expr(x ast.Expr, e *env) (Val, error) {
 		if x.Type == nil {
 			return Val{}, c.err(x, "composite literal without a type")
 		}
-		k, err := c.pkg.kindOfType(c.file, x.Type)
+		k, err := c.kindOf(c.file, x.Type)
 		if err != nil {
 			return Val{}, err
+		}
+		if k.Base == "record" {
+			return c.recordLit(x, k, e)
 		}
 		if k.Base != "range" {
 			return Val{}, c.err(x, "composite literal of kind %s", k.Base)
@@ -235,6 +257,16 @@ func (c *fnCtx) expr(x ast.Expr, e *env) (Val, error) {
 		return Val{S: "(" + elts[0] + ", " + elts[1] + ")", K: k}, nil
 
 	case *ast.UnaryExpr:
+		if x.Op == token.AND {
+			if cl, ok := x.X.(*ast.CompositeLit); ok {
+				v, err := c.expr(cl, e)
+				if err == nil && v.K.Base != "record" {
+					return Val{}, c.err(x, "address of a composite literal of kind %s", v.K.Base)
+				}
+				return v, err
+			}
+			return Val{}, c.err(x, "address-of")
+		}
 		switch x.Op {
 		case token.NOT:
 			v, err := c.exprKind(x.X, e, Kind{Base: "bool"})
@@ -391,7 +423,7 @@ func (c *fnCtx) binary(x *ast.BinaryExpr, e *env) (Val, error) {
 	}
 	k := a.K
 	as, bs := atom(a.S), atom(b.S)
-	pre := map[string]string{"u64": "N", "estr": "N", "int": "Z"}[k.Base]
+	pre := map[string]string{"u64": "N", "estr": "N", "ord": "N", "int": "Z"}[k.Base]
 	boolK := Kind{Base: "bool"}
 	switch x.Op {
 	case token.EQL, token.NEQ:
@@ -404,7 +436,7 @@ func (c *fnCtx) binary(x *ast.BinaryExpr, e *env) (Val, error) {
 		}
 		return Val{S: eq, K: boolK}, nil
 	case token.LSS, token.LEQ, token.GTR, token.GEQ:
-		if k.Base != "u64" && k.Base != "int" {
+		if k.Base != "u64" && k.Base != "int" && k.Base != "ord" {
 			return Val{}, c.err(x, "ordering on kind %s", k.Base)
 		}
 		switch x.Op {
@@ -515,6 +547,9 @@ func (c *fnCtx) isBigPkg(x ast.Expr) bool {
 }
 
 func (c *fnCtx) call(x *ast.CallExpr, e *env) (Val, error) {
+	if v, ok, err := c.call2(x, e); ok || err != nil {
+		return v, err
+	}
 	if x.Ellipsis != token.NoPos {
 		return Val{}, c.err(x, "variadic call")
 	}
@@ -538,7 +573,7 @@ func (c *fnCtx) call(x *ast.CallExpr, e *env) (Val, error) {
 		}
 		// conversion to a builtin or package-level type
 		if isTypeName(c.pkg, f.Name) {
-			k, err := c.pkg.kindOfType(c.file, f)
+			k, err := c.kindOf(c.file, f)
 			if err != nil {
 				return Val{}, err
 			}
@@ -551,7 +586,7 @@ func (c *fnCtx) call(x *ast.CallExpr, e *env) (Val, error) {
 		return c.callFunc(c.pkg, d, nil, x, e)
 
 	case *ast.ParenExpr, *ast.StarExpr, *ast.ArrayType:
-		k, err := c.pkg.kindOfType(c.file, f)
+		k, err := c.kindOf(c.file, f)
 		if err != nil {
 			return Val{}, err
 		}
@@ -578,7 +613,7 @@ func (c *fnCtx) call(x *ast.CallExpr, e *env) (Val, error) {
 					return Val{}, err
 				}
 				if _, isType := other.Types[f.Sel.Name]; isType {
-					k, err := c.pkg.kindOfType(c.file, f)
+					k, err := c.kindOf(c.file, f)
 					if err != nil {
 						return Val{}, err
 					}
@@ -628,7 +663,7 @@ func isTypeName(p *Pkg, n string) bool {
 }
 
 func (c *fnCtx) callFunc(p *Pkg, d *ast.FuncDecl, recv *Val, x *ast.CallExpr, e *env) (Val, error) {
-	sig, err := c.tr.translateFunc(p, d, "", nil, true)
+	sig, err := c.tr.translateFunc(p, d, "", c.spec, true)
 	if err != nil {
 		return Val{}, err
 	}
@@ -744,6 +779,16 @@ func (c *fnCtx) bigMethod(x *ast.CallExpr, f *ast.SelectorExpr, recv Val, e *env
 			return Val{}, err
 		}
 		return Val{S: fmt.Sprintf("(big_bitlen %s)", atom(recv.S)), K: intK}, nil
+	case "Bit":
+		// the position has been checked to be non-negative in front of the statement (hoistIndex)
+		if err := need(1); err != nil {
+			return Val{}, err
+		}
+		a, err := arg(0, intK)
+		if err != nil {
+			return Val{}, err
+		}
+		return Val{S: fmt.Sprintf("(if Z.testbit %s %s then 1%%N else 0%%N)", atom(recv.S), a), K: Kind{Base: "u64"}}, nil
 	}
 	// value-producing methods
 	var val string
@@ -763,6 +808,33 @@ func (c *fnCtx) bigMethod(x *ast.CallExpr, f *ast.SelectorExpr, recv Val, e *env
 			return Val{}, err
 		}
 		val = fmt.Sprintf("(%s %s %s)", two[name], a, b)
+	case name == "SetBit":
+		if err := need(3); err != nil {
+			return Val{}, err
+		}
+		a, err := arg(0, bigK)
+		if err != nil {
+			return Val{}, err
+		}
+		i, err := arg(1, intK)
+		if err != nil {
+			return Val{}, err
+		}
+		bv, err := c.expr(x.Args[2], e)
+		if err != nil {
+			return Val{}, err
+		}
+		if bv.K.Base != "untyped" {
+			return Val{}, c.err(x, "SetBit with a bit that is not the literal 0 or 1 (any other value panics)")
+		}
+		switch bv.C.ExactString() {
+		case "1":
+			val = fmt.Sprintf("(Z.setbit %s %s)", a, i)
+		case "0":
+			val = fmt.Sprintf("(Z.clearbit %s %s)", a, i)
+		default:
+			return Val{}, c.err(x, "SetBit with a bit that is not the literal 0 or 1 (any other value panics)")
+		}
 	case name == "Lsh" || name == "Rsh":
 		if err := need(2); err != nil {
 			return Val{}, err
@@ -808,7 +880,7 @@ func (c *fnCtx) bigMethod(x *ast.CallExpr, f *ast.SelectorExpr, recv Val, e *env
 		}
 		val = "(Z.of_N " + a + ")"
 	default:
-		return Val{}, c.err(x, "big.Int.%s (outside the subset: only Add Sub Mul Div Mod Quo Rem Lsh Rsh And Or Xor Neg Abs Set SetInt64 SetUint64 Cmp CmpAbs Sign BitLen)", name)
+		return Val{}, c.err(x, "big.Int.%s (outside the subset: only Add Sub Mul Div Mod Quo Rem Lsh Rsh And Or Xor Neg Abs Set SetInt64 SetUint64 SetBit Bit Cmp CmpAbs Sign BitLen)", name)
 	}
 	if recv.Alias == "" {
 		return Val{S: val, K: bigK}, nil // the receiver is a temporary: nobody else sees the store
